@@ -341,7 +341,7 @@ var crossLaneExceptions = map[string]string{
 }
 
 func runC06(c *core.Ctx) core.Meta {
-	c.Load(emuPkg, cdna3Pkg)
+	c.Load(emuPkg, cdna3Pkg, kernelsPkg, cuPkg)
 	c.BuildSSA()
 	prov := core.NewProv(c)
 	stLoop := c.Rule("R06.loop", "every loop whose induction variable is used as a lane index starts at 0, steps by 1 and runs while i < 64", 300)
@@ -352,6 +352,13 @@ func runC06(c *core.Ctx) core.Meta {
 	stHoist := c.Rule("R06.hoist", "a vector handler (a function with a lane loop) reads an operand outside the loop, at a fixed lane, only if the operand can never be a vector register: for every format whose dispatcher reaches the handler (FormatType dispatch of the ALU's Run resolved per format), every store to that operand field in the format's decoder (FormatType dispatch of Disassembler.Decode) stores a freshly built non-register operand (the literal K of v_madak / v_fmaak / v_fmamk). An operand filled from an operand code (getOperand) or a register constructor may be a VGPR with a different value per lane", 3)
 	checkScratchPerLane(c, "R06.scratch", []string{emuPkg, cdna3Pkg})
 	checkLaneLoopExits(c, []string{emuPkg, cdna3Pkg})
+	{
+		// the initial lanes: which work-item the grid builder puts into which lane, the EXEC bit it
+		// sets for it, and the first flat id both register initialisations count lanes from
+		lp := core.NewLocalProv(c)
+		lp.InlinePure = true
+		checkWavefrontFormation(c, lp, "R06.form")
+	}
 	decArms := formatArms(c, c.SSAFunc(instsPkg, "Disassembler.Decode"))
 	aluArms := map[string]map[string]map[*ssa.Function]bool{}
 	for _, a := range [][2]string{{emuPkg, "ALUImpl.Run"}, {cdna3Pkg, "ALU.Run"}} {
